@@ -406,9 +406,17 @@ fn run(job: &Job, full: bool, out: &mut JobOut) {
         if m < 2 {
             return;
         }
-        let mut it = xs0.iter_mut();
-        *it.next().unwrap() = 9.0;
-        *it.last().unwrap() = -7.0;
+        // two different offending values placed so that logical order and column-major memory
+        // order meet them in different order: logical indices 1 = (0,..,1) and m/shape[0] = (1,0,..)
+        let p2 = if job.query_shape.len() >= 2 && job.query_shape[0] >= 2 { m / job.query_shape[0] } else { m - 1 };
+        let p1 = if p2 == 1 { 0 } else { 1 };
+        for (i, v) in xs0.iter_mut().enumerate() {
+            if i == p1 {
+                *v = 9.0;
+            } else if i == p2 {
+                *v = -7.0;
+            }
+        }
     }
     let ys0 = y0.as_ref().map(|y| query_nd(&job.query_shape, y[0], y[y.len() - 1], 3.0));
     let bounds0 = if job.strat == "Cubic/Individual" { Some(boundary_rows(&job.data_shape, false)) } else { None };
